@@ -257,7 +257,8 @@ def run(ck, ix, tier):
     ck.check("definition.name" in src and "definition.symbol" in src and "getattr(definition, 'aliases', ())" in src, "G-EXH", "_helper_adder|name-symbol-aliases", fi.loc(), "stored under name, symbol and every alias", "_helper_adder no longer stores name, symbol and aliases")
     fi = ix.func(PR, "GenericPlainRegistry._add_alias")
     ck.analysed(fi)
-    ck.check("for alias in definition.aliases" in norm(fi.node) and "self._helper_single_adder(alias, unit, self._units, self._units_casei)" in norm(fi.node), "G-EXH", "_add_alias|every-alias-maps-to-the-unit", fi.loc(), "@alias adds every alias for the resolved unit", "_add_alias no longer adds every alias for the resolved unit definition")
+    _fa, _every, _look = memo.alias_adder_facts(ix)
+    ck.check(_every and _look, "G-EXH", "_add_alias|every-alias-maps-to-the-unit", fi.loc(), "@alias adds every alias for the resolved unit", "_add_alias no longer adds every alias for the resolved unit definition")
 
     # ------------------------------------------------------------ parse cache + delta substitution
     memo.rule_parse_unit_memo(ck, ix)
